@@ -30,6 +30,10 @@ func main() {
 		os.Exit(runC07())
 	case "C08":
 		os.Exit(runC08())
+	case "race":
+		n := 5
+		fmt.Sscan(os.Args[2], &n)
+		os.Exit(racePass(n))
 	case "one8":
 		h.Boot(2, 1)
 		rt.CurMode = rt.Free
@@ -132,9 +136,9 @@ func runC14() int {
 
 func runC07() int {
 	tier := os.Getenv("VERIF_TIER")
-	bound, maxRuns := 1, 400
+	bound, maxRuns := 1, 2500
 	if tier == "thorough" {
-		bound, maxRuns = 2, 6000
+		bound, maxRuns = 2, 40000
 	}
 	rep := ev.NewReport("C07", "exploration")
 	p := &pool.Pool{Handler: "c07", N: 16, Timeout: 120 * time.Second, MemMB: 6144, MaxTasks: 1}
@@ -171,6 +175,11 @@ func runC07() int {
 		}
 		return nil
 	})
+	raceReps := 5
+	if tier == "thorough" {
+		raceReps = 40
+	}
+	raceRuns, raceReports, raceRan := runRace(rep, raceReps)
 	if len(samples) == 0 {
 		samples = []string{"(no deviating run)"}
 	}
@@ -183,6 +192,9 @@ func runC07() int {
 		"deviation_bound":     bound,
 		"tasks_truncated":     truncated,
 		"workloads":           len(c07Workloads()),
+		"race_pass_ran":       raceRan,
+		"race_pass_runs":      raceRuns,
+		"race_reports":        raceReports,
 	}
 	return rep.Finish(cov, []string{
 		"rafthttp transport, the raft.Node channel wrapper, OS-level kill and TCP are replaced by the simulator; membership changes are not exercised (un-started transport)",
